@@ -43,7 +43,8 @@ Inductive ev :=
 | Arrive                           (* the produce request reaches the leader and is applied *)
 | ReplyOk                          (* client receives the success reply -> futures resolved *)
 | ReplyRetry                       (* client observes a retriable failure -> reenqueue at the FRONT *)
-| ReplyFatal.                      (* client receives a non-retriable error -> futures failed *)
+| ReplyFatal                       (* client receives a non-retriable error -> futures failed *)
+| FlushRet.                        (* flush()/stop() returns: only when nothing is queued or in flight *)
 
 Definition zlen' (l : list nat) : Z := Z.of_nat (length l).
 
@@ -142,6 +143,11 @@ Definition step (s : st) (e : ev) : option (st * option verdict) :=
           end
       | None => None
       end
+  | FlushRet =>
+      match pend s, uq s with
+      | None, [] => Some (s, None)
+      | _, _ => None
+      end
   end.
 
 Fixpoint run (s : st) (tr : list ev) : option (st * list verdict) :=
@@ -215,6 +221,11 @@ Definition nstep (s : nst) (e : ev) : option nst :=
       match npend s with
       | Some (b, _) => Some (mkN (nuq s) None (nlog s) (ndr s) (naccepted s))   (* expired / non-retriable *)
       | None => None
+      end
+  | FlushRet =>
+      match npend s, nuq s with
+      | None, [] => Some s
+      | _, _ => None
       end
   end.
 
